@@ -492,7 +492,14 @@ func (i *interpreter) runPath(pkg *ssa.Package, fn *ssa.Function, prefix []Decis
 			res.Sample = nil
 		}
 	}()
-	// package initialisation, then the harness
+	// package initialisation, then the harness. crypto/ecdh is only reachable
+	// through the initialiser of crypto/ecdsa, which is not run: its curve
+	// objects are needed by (*ecdsa.PublicKey).ECDH
+	if extra := i.prog.ImportedPackage("crypto/ecdh"); extra != nil {
+		if f := extra.Func("init"); f != nil {
+			call(i, nil, 0, f, nil)
+		}
+	}
 	if init := pkg.Func("init"); init != nil {
 		call(i, nil, 0, init, nil)
 	}
